@@ -22,6 +22,8 @@ pub enum Op {
     /// isolation: re-load the rules with every threshold lowered by one more (not below 1) while
     /// entries are in flight - the in-flight count may then already exceed the new threshold
     Lower,
+    /// isolation: withdraw all rules (an empty load) and load the original rules again, same ids
+    Restore,
 }
 
 const RES: &str = "c05-res";
@@ -42,11 +44,12 @@ pub struct C05 {
     just_exited: bool,
     lowered: u32,
     over_cap_after_lowering: u64,
+    restored: u32,
 }
 
 impl C05 {
     pub fn new(cfg: &Cfg) -> Self {
-        C05 { cfg: cfg.clone(), open: vec![], admits: 0, rejects: 0, ambiguous: 0, not_applied: 0, freed_reuse: 0, just_exited: false, lowered: 0, over_cap_after_lowering: 0 }
+        C05 { cfg: cfg.clone(), open: vec![], admits: 0, rejects: 0, ambiguous: 0, not_applied: 0, freed_reuse: 0, just_exited: false, lowered: 0, over_cap_after_lowering: 0, restored: 0 }
     }
     fn inflight(&self) -> u32 {
         self.open.len() as u32
@@ -111,6 +114,7 @@ impl Subject for C05 {
         self.just_exited = false;
         self.lowered = 0;
         self.over_cap_after_lowering = 0;
+        self.restored = 0;
         match &self.cfg {
             Cfg::Isolation { .. } => self.load_isolation(),
             Cfg::Hotspot { threshold, index, keyed, overrides, capacity } => {
@@ -153,6 +157,9 @@ impl Subject for C05 {
             if !self.open.is_empty() && self.lowered < 2 && thresholds.iter().any(|t| self.eff(*t) > 1) {
                 v.push(Op::Lower);
             }
+            if self.restored == 0 {
+                v.push(Op::Restore);
+            }
         }
         v
     }
@@ -165,6 +172,12 @@ impl Subject for C05 {
             }
             Op::Lower => {
                 self.lowered += 1;
+                self.load_isolation();
+            }
+            Op::Restore => {
+                self.restored += 1;
+                isolation::load_rules(vec![]);
+                self.lowered = 0;
                 self.load_isolation();
             }
             Op::Build { batch, value, with_param } => {
